@@ -454,6 +454,7 @@ J_range(e) ==
       ambiguous == zoned /\ (Ambig(last) \/ Ambig(nxt))
   IN IF hi.w[1] > 9900 \/ lo.w[1] < 100 THEN R(<<"out-of-range">>, <<>>)          \* soundness rule 3
      ELSE IF endAmbig THEN R(<<"ambiguous-end-point">>, <<>>)                      \* soundness rule 2
+     ELSE IF zoned /\ (PClass(e.pre[1]) = "skipped" \/ PClass(e.pre[2]) = "skipped") THEN R(<<"ill-formed-endpoint">>, <<>>)
      ELSE IF p.k = "exc" THEN R(<<"exception">>, << <<"unexpected-exception", p.names>> >>)
      ELSE R(<<a.k, unit, N(stp), B(abs), N(IvDir(a, b, abs) + 1), B(crossSkip), B(ambiguous), B(p.capped)>>,
        (IF crossSkip \/ p.capped \/ cnt < 1 THEN <<>>
@@ -622,6 +623,9 @@ IvEndpointInRange(t) ==
   IN IF a[1] = cP THEN CalInRange(W7(Recognise(b)), NegC(CofD(RecDuration(a))))
      ELSE IF b[1] = cP THEN CalInRange(W7(Recognise(a)), CofD(RecDuration(b)))
      ELSE TRUE
+\* decimal digits of the scripts the drivers draw from (ASCII, Arabic-Indic, extended Arabic-Indic, full-width):
+\* Python's int() and \d take all of them for digits
+UDigit(c) == c \in 48..57 \/ c \in 1632..1641 \/ c \in 1776..1785 \/ c \in 65296..65305
 J_parse_any(e) ==
   LET t == e.a.text  p == e.post  o == e.a.opts
       ascii == \A i \in 1..Len(t) : t[i] < 128
@@ -635,7 +639,7 @@ J_parse_any(e) ==
   IN IF isNow THEN R(<<"now">>, <<>>) ELSE
      R(<<outcome, B(o.strict), B(o.exact), B(r.ok), B(rd.ok), B(HasForeign(t)), e.a.origin, "exc", excName,
          "slash", B(Has(t, cSlash)), "iv-wellformed", B(ivok), "iv-endpoint-in-range", (IF ivok THEN B(IvEndpointInRange(t)) ELSE "-"), "nonascii", B(~ascii), "wide", B(rd.ok /\ rd.maxdigits >= 10),
-         "longdigits", B(\E i \in 1..(Len(t) - 9) : AllDigits(Sub(t, i, i + 9))),
+         "longdigits", B(\E i \in 1..(Len(t) - 9) : \A j \in i..(i + 9) : UDigit(t[j])),
          "durfrac", B(rd.ok /\ rd.hasfrac), "trailing-newline", B(Len(t) > 0 /\ t[Len(t)] = 10),
          "ends-colon", B((Len(t) > 0 /\ t[Len(t)] = cColon) \/ (\E i \in 1..(Len(t) - 1) : t[i] = cColon /\ t[i + 1] \in {cColon, cDot, cComma}))>>,
        V("total", IF p.top.k = "exc" THEN "ValueError" \in ToSet(p.top.names) ELSE PendulumValue(p.top), "a pendulum value or ValueError")
